@@ -237,7 +237,9 @@ class Ctx:
 
     def harness(self, args, inp=None, scaled=False, timeout=3600, env=None):
         exe = os.path.join(BUILD, "vharness-scaled" if scaled else "vharness")
-        e = dict(os.environ, GOMEMLIMIT="8GiB")
+        tmp = os.path.join(BUILD, "tmp")
+        os.makedirs(tmp, exist_ok=True)
+        e = dict(os.environ, GOMEMLIMIT="8GiB", TMPDIR=tmp)
         if env:
             e.update(env)
         p = subprocess.run([exe] + args, input=inp, stdout=subprocess.PIPE, stderr=subprocess.PIPE, timeout=timeout, env=e)
@@ -396,7 +398,7 @@ def run_property(pid, tier, seed, replay=None):
 
     changed = anchors_changed(pid)
     gen_tier = tier
-    if changed and tier == "quick":
+    if changed and tier == "quick" and spec.get("escalate", True):
         gen_tier = "escalated"   # a modelled source file changed: 3x the quick generator budget
     if hok and driver_ok and spec.get("differential", True):
         cc = corpus_cases(pid)
@@ -411,7 +413,10 @@ def run_property(pid, tier, seed, replay=None):
                 differential(ctx, spec, cases, scaled=True, label="scaled")
         if broken and not ctx.violations:
             # a proof obligation broke: search harder for a concrete failing input (10x budget)
+            t_search = time.time()
             for k in range(1, 11):
+                if time.time() - t_search > 150:
+                    break   # the search is bounded in wall time; the verdict is a VIOLATION either way
                 cases = gen_cases(ctx, seed + 1000 * k, gen_tier if k < 3 else tier)
                 if cases:
                     differential(ctx, spec, cases, label="search-%d" % k)
